@@ -2728,3 +2728,6 @@ mod test {
         assert_eq!(output, slice)
     }
 }
+
+#[cfg(feature = "verif-hooks")]
+mod verif_hooks;
